@@ -75,7 +75,18 @@ var lexEdge = []string{
 	">", ">>", ">>=", ">=", ">>>", "&", "&&", "&=", "&&&", "|", "||", "|=", "(", ")", "{", "}", "[", "]", ",", ".", ":", ";", "@", "~", "#", "$", "`", "\"", "'", "?", "\\",
 	"array<vec3<f32>>", "a<b<c>>=d", "a>>=b", "a>=b", "x\ty\r\nz", "x\vy", "x\fy", "x\u0085y", "x y", "x y", "été", "变量", "λx", "x́", "a‍b", "🙂", "a🙂b",
 	"fn main(){}", "let x=1;", "var<private> x:i32=0;", "@compute @workgroup_size(1)", "true false", "vec2 vec3f mat2x2 mat2x2f", "texture_2d<f32>", "ééééé x", "\n\n  ééé",
-	"/* é */ x", "// é\nx", "a/**/b", "1/**/.5", "a/ /b", "a /* */ / b", "x\x00y",
+	"/* é */ x", "// é\nx", "a/**/b", "/* a /*/ b */ c */ d", "/*/*/*/ x */*/ y", "/* /*/ */ */ z", "/*/ */ w", "/* */*/ v", "/*//*/*/ u", "/* * /* / */ */ t", "1/**/.5", "a/ /b", "a /* */ / b", "x\x00y",
+}
+
+// commentSoup: strings over a tiny alphabet that makes nested comment openers/closers frequent.
+func (c *ctx) commentSoup() string {
+	alpha := []string{"/", "*", "/*", "*/", "a", " ", "\n", "/", "*"}
+	n := 2 + c.rng.Intn(12)
+	var b strings.Builder
+	for i := 0; i < n; i++ {
+		b.WriteString(alpha[c.rng.Intn(len(alpha))])
+	}
+	return b.String()
 }
 
 func (c *ctx) charSoup() string {
@@ -91,7 +102,7 @@ func (c *ctx) charSoup() string {
 // WGSL blankspace / line-break code points beyond space, tab, LF, CR (WGSL §3.2 / §3.3).
 var exoticTrivia = []string{"\v", "\f", "\u0085", "\u200e", "\u200f", "\u2028", "\u2029", " // c\r", " // c\v", " // c\u2028", " /* c */\f"}
 
-var triviaPool = []string{" ", "\n", "\t", "  ", "\r\n", " \n ", " /* c */ ", " /* /* nested */ \" ' */ ", "\n// line ' \" */ /* \n", " /* é 变 */ ", "\n/* a\nb */\n", " /***/ ", " /* * / */ ", "\n//\n", " // x\r\n"}
+var triviaPool = []string{" ", "\n", "\t", "  ", "\r\n", " \n ", " /* c */ ", " /* a /*/ b */ c */ ", " /*/*/*/ x */*/*/ ", " /* /*/ */ */ ", " /* /* nested */ \" ' */ ", "\n// line ' \" */ /* \n", " /* é 变 */ ", "\n/* a\nb */\n", " /***/ ", " /* * / */ ", "\n//\n", " // x\r\n"}
 
 // retrivia re-renders the real token stream with fresh trivia between all tokens.
 func (c *ctx) retrivia(src string, heavy bool) (string, bool) {
@@ -214,6 +225,10 @@ func cmdC19(c *ctx) {
 		lexCase(c, c.charSoup())
 		c.count("lex-soup")
 	}
+	for i := 0; i < c.n; i++ {
+		lexCase(c, c.commentSoup())
+		c.count("lex-comment-soup")
+	}
 	for i := 0; i < c.n/10; i++ {
 		m, _ := genModule(c, defaultGenOpts(c))
 		src := m.wgsl()
@@ -233,13 +248,33 @@ func cmdC19(c *ctx) {
 			src = corpus[c.rng.Intn(len(corpus))]
 			ep = ""
 		} else {
-			gm, _ = genModule(c, defaultGenOpts(c))
+			o := defaultGenOpts(c)
+			o.forceShadow = c.chance(0.4)
+			gm, _ = genModule(c, o)
 			src = gm.wgsl()
 			ep = "main"
 		}
 		base := compileAll(src, ep)
 		if !base.ok {
+			// "accepted after the edit iff accepted before": a rejected program must stay rejected
 			c.count("e2e-base-rejected")
+			if gm != nil {
+				wrender = &renderOpts{rng: c.rng, unshadow: true}
+				s6 := gm.wgsl()
+				wrender = nil
+				if after := compileAll(s6, ep); after.ok {
+					c.line("e2e.txt", fmt.Sprintf("%s %s %s %s", "unshadow", q(diffOutputs(base, after, true)), q(src), q(s6)))
+				}
+				s4 := renameIdents(src, c)
+				if after := compileAll(s4, ep); after.ok {
+					c.line("e2e.txt", fmt.Sprintf("%s %s %s %s", "rename", q(diffOutputs(base, after, true)), q(src), q(s4)))
+				}
+			}
+			if s2, ok := c.retrivia(src, true); ok {
+				if after := compileAll(s2, ep); after.ok {
+					c.line("e2e.txt", fmt.Sprintf("%s %s %s %s", "trivia", q(diffOutputs(base, after, false)), q(src), q(s2)))
+				}
+			}
 			continue
 		}
 		// trivia
@@ -282,6 +317,16 @@ func cmdC19(c *ctx) {
 			d := diffOutputs(base, after, false)
 			c.line("e2e.txt", fmt.Sprintf("%s %s %s %s", "parens+commas", q(d), q(src), q(s3)))
 			c.count("e2e-parens")
+			// entity-level renaming: shadowing locals get a fresh spelling (the shadowed module name keeps its own)
+			wrender = &renderOpts{rng: c.rng, unshadow: true}
+			s6 := gm.wgsl()
+			wrender = nil
+			if s6 != src {
+				after = compileAll(s6, ep)
+				d = diffOutputs(base, after, true)
+				c.line("e2e.txt", fmt.Sprintf("%s %s %s %s", "unshadow", q(d), q(src), q(s6)))
+				c.count("e2e-unshadow")
+			}
 			// consistent renaming of user identifiers (locals, params, helpers, globals, consts, struct names/fields)
 			s4 := renameIdents(src, c)
 			after = compileAll(s4, ep)
@@ -292,7 +337,7 @@ func cmdC19(c *ctx) {
 	}
 }
 
-var userIdentRe = regexp.MustCompile(`\b(vv|ll|kk|ii|pp|gp|KK|helper|St|fld)([0-9]+(_[0-9]+)?)\b`)
+var userIdentRe = regexp.MustCompile(`\b(vv|ll|kk|ii|pp|gp|KK|SH|SX|helper|St|fld)([0-9]+(_[0-9]+)?)\b`)
 
 // renameIdents renames the generator's user identifiers consistently and injectively.  The new
 // names keep the relative order of first occurrence and never collide with keywords/builtins.
